@@ -662,3 +662,4 @@ LEVEL_NOTE = ("relation_exact is stated for plain edge lists, relation_exact_roo
 TECHNIQUE = ("machine-checked proof (Lean 4) on an executable model + differential correspondence check against the real "
              "constructors, model-free oracle on every case")
 RULE = RULE + ' Fourth session: non-default unique pandas indices, DataFrame.attrs in the input-unmodified comparison, an opaque float column g (incl. +-inf), 1054 relation rows per library, a heap list of 1100 elements.'
+RULE = RULE + ' Fifth session: half of the heap lists up to 120 elements are also built in the interpreter started with the checks off.'
